@@ -59,8 +59,8 @@ def gen_content(rnd, big=False):
     gas = rnd.sample(range(1, 0xFFFF), rnd.choice((0, 1, 2, 5, 12)))
     c = {"project": rnd.choice(["Test", "Haus & Hof <1>", "Ünïcode \"quoted\"", "p" * 40]), "created": f"20{rnd.randrange(10, 30)}-0{rnd.randrange(1, 10)}-1{rnd.randrange(10)}T0{rnd.randrange(10)}:45:22",
          "password": rnd.choice(["pwd", "test", "pässwörd €", "a" * 33, "x", " pwd", "pwd ", "p w\td", "\tpw\n"]),      # blanks are characters of the password
-         "groups": [[g, bytes(rnd.randrange(256) for _ in range(16)).hex()] for g in gas],
-         "backbone": rnd.choice([None, {"mc": "224.0.23.12", "latency": rnd.choice((1000, 2000, 1)), "key": bytes(rnd.randrange(256) for _ in range(16)).hex()},
+         "groups": [[g, rkey(rnd)] for g in gas],
+         "backbone": rnd.choice([None, {"mc": "224.0.23.12", "latency": rnd.choice((1000, 2000, 1)), "key": rkey(rnd)},
                                  {"mc": "224.0.23.12", "latency": None, "key": None}]),
          "ifaces": [], "devices": []}
     hosts = rnd.sample(pool_ia, 2)
@@ -75,8 +75,17 @@ def gen_content(rnd, big=False):
                             "auth": rnd.choice([None, "authcode", "x" * 8]) if typ == "Tunneling" else None, "groups": groups})
     for k in range(rnd.choice((0, 0, 1, 3, 6))):
         c["devices"].append({"ia": rnd.choice(pool_ia[:20]) if rnd.random() < 0.7 else pool_ia[30 + k], "seq": rnd.choice([None, 0, 1, 2**31, 2**48 - 1, rnd.randrange(2**40)]),
-                             "toolkey": bytes(rnd.randrange(256) for _ in range(16)).hex(), "mgmt": rnd.choice(["commissioning", "m" * 9]), "auth": rnd.choice(["devauth", "z"])})
+                             "toolkey": rkey(rnd), "mgmt": rnd.choice(["commissioning", "m" * 9]), "auth": rnd.choice(["devauth", "z"])})
     return c
+
+
+def rkey(rnd):
+    """a 16-octet key; one in four ends like block padding would (..01, ..0202, ..030303, sixteen times 0x10) or begins / ends with zeros"""
+    k = bytes(rnd.randrange(256) for _ in range(16))
+    if rnd.random() < 0.25:
+        n = rnd.choice([1, 1, 2, 3, 8, 15, 16])
+        k = rnd.choice([k[:16 - n] + bytes([n]) * n, k[:16 - n] + bytes(n), bytes(n) + k[n:]])
+    return k.hex()
 
 
 def build_tree(c, rnd):
